@@ -30,6 +30,8 @@ var c16Projects = []struct{ Name, Text string }{
 	{"jsonrpc", "JSIGHT 0.3\nTYPE @p\n{\"x\": 1}\nURL /rpc\n  Protocol json-rpc-2.0\n  Method m1 // one\n    Params @p\n    Result\n    [@p]\n  Method m2\n    Description\n      two\n    Params\n    {\"y\": @p}\n"},
 	{"headers-and-query", "JSIGHT 0.3\nTYPE @h\n{\"X-T\": \"1\"}\nGET /h\n  Query \"a=1\" noFormat\n  {\"a\": 1, \"b\": [1,2]}\n  Request\n    Headers @h\n    Body any\n  200\n    Headers\n    {\"X-R\": \"r\", // {optional: true}\n     \"X-S\": 2\n    }\n    Body regex\n    /ok|fine/\n"},
 	{"path-or-undefined-types", "JSIGHT 0.3\nGET /a/{id}\n  Path\n  {\"id\": @nope | @nope2}\n  200 any\n"},
+	{"regex-possibly-empty-examples", "JSIGHT 0.3\nTYPE @e1 regex\n/[a-z]*/\nTYPE @e2 regex\n/.*/\nTYPE @e3 regex\n/(cat|dog)?[0-9]*/\nTYPE @e4 regex\n/x?/\nGET /e\n  200 @e1\n  201 @e2\n  202 regex\n  /(ab)*/\n  203 @e3\n  204 @e4\n"},
+	{"responses-out-of-order", "JSIGHT 0.3\nGET /o\n  404 any\n  200 any\n  403 any\n  200 empty\nPOST /o\n  500 any\n  201 any\n"},
 	{"regex-heavy", "JSIGHT 0.3\nTYPE @r1 regex\n/[0-9a-f]{8}-[0-9a-f]{4}/\nTYPE @r2 regex\n/(foo|bar|baz){2,4}[x-z]*/\nGET /r\n  200 @r1\n  201 @r2\n  202 regex\n  /\\w+@\\w+\\.com/\n"},
 }
 
